@@ -213,21 +213,33 @@ func init() {
 		{"Debug", log.DebugLevel, true, func(c context.Context, t *log.Tag, id int64, n *int64) { log.Debug(c, t, gen(id, n)) }},
 		{"Tracef", log.TraceLevel, false, func(c context.Context, t *log.Tag, id int64, n *int64) { log.Tracef(c, t, "id=%d", id) }},
 		{"Debugf", log.DebugLevel, false, func(c context.Context, t *log.Tag, id int64, n *int64) { log.Debugf(c, t, "id=%d", id) }},
-		{"Info", log.InfoLevel, false, func(c context.Context, t *log.Tag, id int64, n *int64) { log.Info(c, t, idf(id), log.String("own", "x")) }},
+		{"Info", log.InfoLevel, false, func(c context.Context, t *log.Tag, id int64, n *int64) {
+			log.Info(c, t, idf(id), log.String("own", "x"))
+		}},
 		{"Infof", log.InfoLevel, false, func(c context.Context, t *log.Tag, id int64, n *int64) { log.Infof(c, t, "id=%d", id) }},
-		{"Warn", log.WarnLevel, false, func(c context.Context, t *log.Tag, id int64, n *int64) { log.Warn(c, t, idf(id), log.String("own", "x")) }},
+		{"Warn", log.WarnLevel, false, func(c context.Context, t *log.Tag, id int64, n *int64) {
+			log.Warn(c, t, idf(id), log.String("own", "x"))
+		}},
 		{"Warnf", log.WarnLevel, false, func(c context.Context, t *log.Tag, id int64, n *int64) { log.Warnf(c, t, "id=%d", id) }},
-		{"Error", log.ErrorLevel, false, func(c context.Context, t *log.Tag, id int64, n *int64) { log.Error(c, t, idf(id), log.String("own", "x")) }},
+		{"Error", log.ErrorLevel, false, func(c context.Context, t *log.Tag, id int64, n *int64) {
+			log.Error(c, t, idf(id), log.String("own", "x"))
+		}},
 		{"Errorf", log.ErrorLevel, false, func(c context.Context, t *log.Tag, id int64, n *int64) { log.Errorf(c, t, "id=%d", id) }},
-		{"Panic", log.PanicLevel, false, func(c context.Context, t *log.Tag, id int64, n *int64) { log.Panic(c, t, idf(id), log.String("own", "x")) }},
+		{"Panic", log.PanicLevel, false, func(c context.Context, t *log.Tag, id int64, n *int64) {
+			log.Panic(c, t, idf(id), log.String("own", "x"))
+		}},
 		{"Panicf", log.PanicLevel, false, func(c context.Context, t *log.Tag, id int64, n *int64) { log.Panicf(c, t, "id=%d", id) }},
-		{"Fatal", log.FatalLevel, false, func(c context.Context, t *log.Tag, id int64, n *int64) { log.Fatal(c, t, idf(id), log.String("own", "x")) }},
+		{"Fatal", log.FatalLevel, false, func(c context.Context, t *log.Tag, id int64, n *int64) {
+			log.Fatal(c, t, idf(id), log.String("own", "x"))
+		}},
 		{"Fatalf", log.FatalLevel, false, func(c context.Context, t *log.Tag, id int64, n *int64) { log.Fatalf(c, t, "id=%d", id) }},
 	}
 	for _, l := range []log.Level{log.NoneLevel, log.TraceLevel, log.DebugLevel, log.InfoLevel, log.WarnLevel, log.ErrorLevel, log.PanicLevel, log.FatalLevel, log.MaxLevel} {
 		l := l
 		lcEntries = append(lcEntries, lcEntry{"Record(" + l.Name() + ")", l, false,
-			func(c context.Context, t *log.Tag, id int64, n *int64) { log.Record(c, l, t, 1, idf(id), log.String("own", "x")) }})
+			func(c context.Context, t *log.Tag, id int64, n *int64) {
+				log.Record(c, l, t, 1, idf(id), log.String("own", "x"))
+			}})
 	}
 }
 
